@@ -8,7 +8,7 @@ from concurrent.futures import ThreadPoolExecutor
 src, bid = sys.argv[1], sys.argv[2]
 tmp = tempfile.mkdtemp(prefix="bacverif-benign-")
 try:
-    shutil.copytree("/repo/py34", os.path.join(tmp, "py34"), ignore=shutil.ignore_patterns("__pycache__", "*.pyc"))
+    subprocess.run("git -C /repo archive HEAD py34 | tar -x -C %s" % tmp, shell=True, check=True)   # the committed tree: /repo\'s working tree may carry a seeded patch under test
     a = subprocess.run(["patch", "-p1", "-s", "--no-backup-if-mismatch", "-d", tmp, "-i", os.path.join(src, "patch.diff")], capture_output=True, text=True)
     if a.returncode:
         print(bid, "patch does not apply:", (a.stdout + a.stderr)[:300]); sys.exit(2)
